@@ -35,6 +35,7 @@ type Profile struct {
 	Clean       bool // avoid the triggers of recorded known findings
 	Throttle    int
 	Denials     bool // the access policy denies some (token, resource) pairs
+	Malformed   bool // malformed client frames, service answers, events and system events injected
 	LongRids    bool // resource ids around the control-line limit
 	Endgame     bool // finish by disconnecting every client and firing every eviction timer
 }
@@ -175,6 +176,17 @@ func (x *Explorer) answerFor(q *gw.Req) gw.Action {
 		return a
 	}
 	fault := x.P.Faults && x.R.Intn(8) == 0
+	if x.P.Malformed && x.R.Intn(6) == 0 {
+		// a malformed or protocol-violating answer: the gateway must treat it as a failed request, nothing else
+		bad := []string{`{`, ``, `null`, `[]`, `"x"`, `{"result":5}`, `{"result":{"model":{"k0":[1]}}}`, `{"result":{"model":{"k0":{"rid":""}}}}`,
+			`{"result":{"model":{"k0":1},"collection":[1]}}`, `{"result":{}}`, `{"result":{"collection":[{"action":"delete"}]}}`,
+			`{"result":{"model":{"k0":{"rid":"a b"}}}}`, `{"error":5}`, `{"error":{"code":7}}`, `{"result":{"get":"yes"}}`, `{"resource":{"rid":"*"}}`,
+			`{"resource":{}}`, `{"result":{"model":{"k0":{"foo":1}}}}`, `{"result":{"collection":{}}}`, `{"meta":{"status":"x"},"result":{"get":true}}`,
+			"\xff\xfe", `{"result":{"model":{"k0":{"rid":"test.r1","action":"delete"}}}}`}
+		a.Text = bad[x.R.Intn(len(bad))]
+		a.Abs = "err\tmalformed"
+		return a
+	}
 	switch typ {
 	case "get":
 		c := x.Truth[rest]
@@ -240,6 +252,24 @@ func (x *Explorer) svcEvent() (gw.Action, bool) {
 	c := x.Truth[name(n)]
 	a := gw.Action{A: "event", Subj: "event." + name(n)}
 	sn := strconv.Itoa(n)
+	if x.P.Malformed && x.R.Intn(4) == 0 {
+		// a malformed or inapplicable event: discarded as a whole, the truth does not change
+		type be struct{ ev, payload string }
+		var bad []be
+		if c.IsModel {
+			bad = []be{{"change", `{"values":{"k0":[1]}}`}, {"change", `"x"`}, {"change", `{"values":{"k1":{"rid":""}}}`}, {"change", `{"values":`},
+				{"add", `{"idx":0,"value":1}`}, {"remove", `{"idx":0}`}, {"change", `{"values":{"k2":{"action":"nuke"}}}`}, {"change", ``},
+				{"change", `{"values":{"k0":{"rid":"a","data":1}}}`}, {"change", `[]`}}
+		} else {
+			bad = []be{{"add", `{"idx":-1,"value":1}`}, {"add", `{"idx":99,"value":1}`}, {"add", `{"idx":0}`}, {"add", `{"idx":"0","value":1}`},
+				{"remove", `{"idx":-1}`}, {"remove", `{"idx":99}`}, {"remove", `{"idx":1.5}`}, {"add", `{"idx":0,"value":[1]}`},
+				{"change", `{"values":{"k0":1}}`}, {"add", `{"idx":0,"value":{"action":"delete"}}`}, {"remove", ``}, {"add", `x`},
+				{"remove", `{"idx":99999999999999999999}`}, {"add", `{"idx":0,"value":{"rid":"a b"}}`}}
+		}
+		b := bad[x.R.Intn(len(bad))]
+		a.Ev, a.Text, a.Abs = b.ev, b.payload, ""
+		return a, true
+	}
 	k := x.R.Intn(20)
 	switch {
 	case k < 3:
@@ -440,6 +470,29 @@ func Explore(seed int64, p Profile) (run *gw.Run, stall error) {
 			if a, ok := x.svcEvent(); ok {
 				x.Run.Do(a)
 			}
+		case k < 52 && p.Malformed && len(live) > 0:
+			c := live[x.R.Intn(len(live))]
+			x.nextID[c.Label]++
+			id := x.nextID[c.Label]
+			frames := []string{`{`, ``, `null`, `[1]`, `"x"`, `{"id":"1","method":"subscribe.test.r0"}`, `{"id":-1,"method":"subscribe.test.r0"}`,
+				`{"id":1.5,"method":"get.test.r0"}`, `{"method":"subscribe.test.r0"}`, `{"id":null,"method":"subscribe.test.r0"}`, "\xff\xfe\x00",
+				fmt.Sprintf(`{"id":%d}`, id), fmt.Sprintf(`{"id":%d,"method":5}`, id), fmt.Sprintf(`{"id":%d,"method":"subscribe"}`, id),
+				fmt.Sprintf(`{"id":%d,"method":"subscribe.test..r0"}`, id), fmt.Sprintf(`{"id":%d,"method":"call.test.r0"}`, id),
+				fmt.Sprintf(`{"id":%d,"method":"unsubscribe.test.r0","params":{"count":"x"}}`, id), fmt.Sprintf(`{"id":%d,"method":"unsubscribe.test.r0","params":[1]}`, id),
+				fmt.Sprintf(`{"id":%d,"method":"version","params":{"protocol":7}}`, id), fmt.Sprintf(`{"id":%d,"method":"version","params":{"protocol":"1.2"}}`, id),
+				fmt.Sprintf(`{"id":%d,"method":"frobnicate.test.r0"}`, id), fmt.Sprintf(`{"id":%d,"method":"subscribe.test.*"}`, id),
+				fmt.Sprintf(`{"ID":%d,"Method":"subscribe.test.r0"}`, id), fmt.Sprintf(`{"id":%d,"method":"auth.test.r0.a b"}`, id)}
+			x.Run.Do(gw.Action{A: "frame", C: c.Label, Text: frames[x.R.Intn(len(frames))]})
+		case k < 56 && p.Malformed:
+			sys := []struct{ ev, payload string }{{"reset", `{`}, {"reset", `{"resources":"x"}`}, {"reset", `{"resources":[5]}`}, {"reset", ``}, {"reset", `[]`},
+				{"tokenReset", `{`}, {"tokenReset", `{"tids":"x"}`}, {"tokenReset", `{"tids":["a"]}`}, {"tokenReset", `{"subject":"x.y"}`}, {"bogus", `{}`}, {"", `{}`}}
+			e := sys[x.R.Intn(len(sys))]
+			x.Run.Do(gw.Action{A: "sysevent", Ev: e.ev, Text: e.payload, Abs: "bad"})
+		case k < 58 && p.Malformed && len(live) > 0:
+			c := live[x.R.Intn(len(live))]
+			bad := []struct{ ev, payload string }{{"token", `{`}, {"token", `"x"`}, {"token", `{"token":{"t":1},"tid":5}`}, {"bogus", `{}`}, {"", ``}}
+			e := bad[x.R.Intn(len(bad))]
+			x.Run.Do(gw.Action{A: "connevent", C: c.Label, Ev: e.ev, Text: e.payload, Abs: "bad"})
 		case k < 88 && p.Disconnect && len(live) > 1:
 			c := live[x.R.Intn(len(live))]
 			x.Run.Do(gw.Action{A: "disconnect", C: c.Label})
